@@ -8,7 +8,7 @@ export GOFLAGS=-mod=mod GOPROXY=off GOSUMDB=off GOTOOLCHAIN=local
 OUT=/tmp/seed/results/$L.txt; : > $OUT
 cd $D || exit 9
 demo() {
-  if [ -f demo.sh ]; then sh ./demo.sh >/tmp/seed/results/$L.demo.log 2>&1 </dev/null; return $?; fi
+  if [ -f demo.sh ]; then SH=sh; head -1 demo.sh | grep -q bash && SH=bash; $SH ./demo.sh >/tmp/seed/results/$L.demo.log 2>&1 </dev/null; return $?; fi
   t=$(ls */demo_test.go */*/demo_test.go demo_test.go 2>/dev/null | head -1)
   if [ -n "$t" ]; then tags=""; grep -q "go:build verif" $t && tags="-tags verif"; grep -q Verif $t && tags="-tags verif"; go test $tags -vet=off -count=1 ./$(dirname $t) -run 'Demo' >/tmp/seed/results/$L.demo.log 2>&1; return $?; fi
   echo "no demo found" >/tmp/seed/results/$L.demo.log; return 99
